@@ -198,6 +198,8 @@ def machine(tier, sink):
       super().__init__()
       self.r = None
       self.done = False
+      from vmm import core
+      core.arm()
 
     @initialize(spec=_init_spec())
     def init(self, spec):
@@ -241,6 +243,8 @@ def machine(tier, sink):
       self._after()
 
     def teardown(self):
+      from vmm import core
+      core.disarm()
       if self.r is not None and not self.done:
         self.done = True
         self.r.finish()
